@@ -47,6 +47,9 @@ def sandbox():
         "secret.txt": "SECRET-parent", "site/..x/inside.txt": "TOKEN-inside-dotdotx-dir", "site/é/ž.txt": "TOKEN-inside-utf8",
         "site/unreadable.txt": "TOKEN-unreadable", "site/data.zzq": "TOKEN-unknown-type", "site/sub/noext": "TOKEN-no-extension",
         "site/big.bin": "TOKEN-big-" + "x" * 5000, "site/sub/huge.txt": "TOKEN-huge-" + "y" * 1200000,
+        # directories that are themselves hidden or backups, and visible names with a tilde elsewhere
+        "site/old~/f.txt": "TOKEN-backup-dir", "site/sub/draft~/x.txt": "TOKEN-backup-subdir", "site/.git/config": "TOKEN-dot-dir",
+        "site/~tilde.txt": "TOKEN-tilde-first", "site/sub/mid~dle.txt": "TOKEN-tilde-middle", "site/..data/v": "TOKEN-dotdot-dir",
     }
     for rel, content in files.items():
         p = os.path.join(base, rel)
@@ -80,7 +83,7 @@ def cleanup():
 
 SEGS = ["", ".", "..", "sub", "deep", "a.txt", "f.txt", "index.txt", "..x", "_private", "s.txt", "%2e%2e", "a\x00b", "é",
         "ž.txt", "secret.txt", ".hidden", "backup.txt~", "unreadable.txt", "empty", "site", "site..x", "site_private",
-        "sock", "data.zzq", "noext", "big.bin", "huge.txt"]
+        "sock", "data.zzq", "noext", "big.bin", "huge.txt", "old~", "draft~", ".git", "~tilde.txt", "mid~dle.txt", "..data"]
 METHODS = ["GET", "HEAD", "POST", "DELETE", "PUT", "OPTIONS"]
 
 
